@@ -169,24 +169,30 @@ fn check_total(cyc: &Cycle, total: i128) -> Result<(), (Value, Value)> {
 
 /// totals whose second count equals an in-range instant modulo 2^m (a lossy recombination of a split division, a narrowing
 /// cast): (k x 2^m + t) x 10^9 + ns and k x 2^m + t x 10^9 + ns for every m, small k, boundary t
-fn sweep_wrap_totals(cyc: &Cycle, rec: &Recorder) -> Tally {
-    let mut tl = Tally::default();
+pub fn wrap_total_candidates() -> Vec<i128> {
     let ts: [i64; 9] = [0, 1, -1, 86_400, -86_400, 951_868_800, 1_700_000_000, MIN_UNIX_TIME, MAX_UNIX_TIME];
     let mut totals: Vec<i128> = vec![];
+    // the wrapped quantity may be the count of nanoseconds, seconds, minutes, hours, days or weeks
+    let units: [i128; 6] = [1, 1_000_000_000, 60_000_000_000, 3_600_000_000_000, 86_400_000_000_000, 604_800_000_000_000];
     for m in 20..=126u32 {
         for k in [-3i128, -2, -1, 1, 2, 3] {
             for &t in &ts {
                 for ns in [0i128, 1, 999_999_999] {
-                    if let Some(v) = k.checked_mul(1i128 << m).and_then(|x| x.checked_add(t as i128)).and_then(|x| x.checked_mul(1_000_000_000)).and_then(|x| x.checked_add(ns)) {
-                        totals.push(v);
-                    }
-                    if let Some(v) = k.checked_mul(1i128 << m).and_then(|x| x.checked_add(t as i128 * 1_000_000_000 + ns)) {
-                        totals.push(v);
+                    for &u in &units {
+                        if let Some(v) = k.checked_mul(1i128 << m).and_then(|x| x.checked_mul(u)).and_then(|x| x.checked_add(t as i128 * 1_000_000_000 + ns)) {
+                            totals.push(v);
+                        }
                     }
                 }
             }
         }
     }
+    totals
+}
+
+fn sweep_wrap_totals(cyc: &Cycle, rec: &Recorder) -> Tally {
+    let mut tl = Tally::default();
+    let totals = wrap_total_candidates();
     for total in totals {
         tl.evals += 1;
         match guard(|| check_total(cyc, total)) {
